@@ -1024,6 +1024,9 @@ class Interp:
         if loc.root[0] != 'L':
             # a store into caller-visible memory
             self.rec(frame, site[1], 'event', site, ('store', loc, v, self.key_desc(w), w.fork()))
+            sh = self.cfg.get('store_hook')
+            if sh:
+                sh(self, w, frame, site, loc, v)
             if loc.path and loc.path[-1][0] == 'i':
                 w.written = w.written | {loc.root}
                 wh = self.cfg.get('write_hook')
@@ -1253,7 +1256,14 @@ class Interp:
         if target is None:
             # diverging call: every feasible world reaching it is a panic
             return []
+        rh = None
+        if f[0] == 'fn':
+            fnj = f[1]
+            rh = self.cfg.get('ret_hooks', {}).get(strip_generics(fnj.get('resolved') or fnj['name'])) or \
+                self.cfg.get('ret_hooks', {}).get(strip_generics(fnj['name']))
         for (w2, rv) in results:
+            if rh:
+                rh(self, w2, frame, site, args, rv)
             self.assign(w2, frame, term['dest'], rv, site)
             out.append((target, w2))
         return out
@@ -1327,6 +1337,11 @@ class Interp:
         rets = self.run_body(frame, w)
         out = []
         for rw in rets:
+            if not ctx:
+                # root analysis: keep the final values of the parameters for the rule packs
+                for i in range(1, body.arg_count + 1):
+                    if ('L', fid, i) in rw.mem:
+                        rw.mem[('R', i)] = rw.mem[('L', fid, i)]
             rv = rw.mem.get(('L', fid, 0), MOVED)
             for root in [r for r in rw.mem if r[0] == 'L' and r[1] == fid]:
                 del rw.mem[root]
